@@ -41,7 +41,7 @@ type Tree struct {
 
 var rec = ev.New("C13", "c13.calltree",
 	"generated call trees: a root template and up to 5 generated components whose bodies and child blocks are sequences of markers, children slots (0..2 per body), and calls - with or without a block, nested up to depth 4 - to generated components, once handles (block form and fixed-component form), templ.Flush, templ.Raw, templ.Join, a function component that ignores children, a hand-written one that renders templ.GetChildren, one that captures its children in a buffer of its own before writing them, and a hand-written layer that renders two generated components with the context it received; "+
-		"every tree is generated with /repo's generator, compiled and rendered; the marker sequence must equal the one computed by a reference interpreter of the statement (a callee gets exactly its call site's block, blocks are evaluated in the caller's scope, nothing leaks to siblings or descendants, nothing is rendered twice). "+
+		"every tree is generated with /repo's generator, compiled and rendered - once with Render, once served by templ.Handler in front of a children slot that gets no block, right after a request whose render was abandoned with a block still pending -; the marker sequence must equal the one computed by a reference interpreter of the statement (a callee gets exactly its call site's block, blocks are evaluated in the caller's scope, nothing leaks to siblings or descendants, nothing is rendered twice). "+
 		"Non-trivial = the tree has a no-block call inside some block, or a sibling after a call whose callee does not consume its block; distinct by tree")
 
 // joined lists the components a join / fnseq call is given.
@@ -248,11 +248,21 @@ import (
 	"context"
 	"encoding/json"
 	"fmt"
+	"errors"
 	"io"
+	"net/http/httptest"
 	"os"
 
 	"github.com/a-h/templ"
 )
+
+// fnAbandon is given a block and fails without ever looking at it: the render is abandoned
+// while the block is still where the call site put it.
+func fnAbandon() templ.Component {
+	return templ.ComponentFunc(func(ctx context.Context, w io.Writer) error {
+		return errors.New("abandoned deliberately")
+	})
+}
 
 func fnText(s string) templ.Component {
 	return templ.ComponentFunc(func(ctx context.Context, w io.Writer) error {
@@ -303,6 +313,10 @@ type result struct {
 	I   int    ` + "`json:\"i\"`" + `
 	Out string ` + "`json:\"out\"`" + `
 	Err string ` + "`json:\"err\"`" + `
+	// Served: the same tree in front of a children slot that gets no block, served by templ.Handler
+	// right after a request whose render was abandoned with a block still pending.
+	Served       string ` + "`json:\"served\"`" + `
+	ServedStatus int    ` + "`json:\"served_status\"`" + `
 }
 
 func main() {
@@ -321,8 +335,33 @@ func main() {
 			}
 		}()
 		r.Out = buf.String()
+		func() {
+			defer func() {
+				if x := recover(); x != nil {
+					r.Served = fmt.Sprintf("panic: %v", x)
+				}
+			}()
+			templ.Handler(helperAbandoned()).ServeHTTP(httptest.NewRecorder(), httptest.NewRequest("GET", "/a", nil))
+			rr := httptest.NewRecorder()
+			templ.Handler(helperSlotRoot(c())).ServeHTTP(rr, httptest.NewRequest("GET", "/b", nil))
+			r.Served, r.ServedStatus = rr.Body.String(), rr.Code
+		}()
 		_ = enc.Encode(r)
 	}
+}
+`
+
+// helperTempl: fixed templates of every batch.
+const helperTempl = `
+templ helperAbandoned() {
+	@fnAbandon() {
+		<b>block-of-an-abandoned-render</b>
+	}
+}
+
+templ helperSlotRoot(c templ.Component) {
+	@c
+	{ children... }
 }
 `
 
@@ -341,6 +380,7 @@ func runBatch(trees []Tree) ([]error, error) {
 	defer os.RemoveAll(dir)
 	var src strings.Builder
 	src.WriteString("package main\n\n")
+	src.WriteString(helperTempl)
 	var roots strings.Builder
 	roots.WriteString("package main\n\nimport \"github.com/a-h/templ\"\n\nvar roots = []func() templ.Component{\n")
 	for i, t := range trees {
@@ -362,9 +402,11 @@ func runBatch(trees []Tree) ([]error, error) {
 	seen := 0
 	for dec.More() {
 		var r struct {
-			I   int
-			Out string
-			Err string
+			I            int
+			Out          string
+			Err          string
+			Served       string
+			ServedStatus int `json:"served_status"`
 		}
 		if err := dec.Decode(&r); err != nil {
 			return nil, err
@@ -376,6 +418,8 @@ func runBatch(trees []Tree) ([]error, error) {
 			errs[r.I] = fmt.Errorf("render failed: %s", r.Err)
 		case stripWS(r.Out) != want:
 			errs[r.I] = fmt.Errorf("rendered %q, the call tree denotes %q\n%s", stripWS(r.Out), want, trees[r.I].source("T"))
+		case r.ServedStatus != 200 || stripWS(r.Served) != want:
+			errs[r.I] = fmt.Errorf("served by templ.Handler in front of a children slot that gets no block, after a request whose render was abandoned: status %d, body %q; the call tree denotes %q\n%s", r.ServedStatus, stripWS(r.Served), want, trees[r.I].source("T"))
 		}
 	}
 	if seen != len(trees) {
